@@ -22,6 +22,9 @@
                               C07_dispatch_stops_old_refuted: the code before the repair
                               ("fix: one runt frame stops the fd-based link endpoint for good") did
                               not: a 10-byte frame returns "stop".
+     "does not corrupt"       also C07_fd_views_carry_the_frame: the views fdbased builds from a
+                              frame (cut at the BufConfig sizes, Ethernet header trimmed) carry
+                              exactly the frame's bytes behind the header, nothing lost or added.
    NOT proved (partial by nature): what the TCP protocol goroutines do with a queued segment, the
    application-facing halves of the endpoints, the link-address cache, locks, goroutines, timers,
    memory.  Deadlock-freedom and the three liveness probes of the property text (echo answered,
@@ -51,3 +54,8 @@ Theorem C07_dispatch_stops_old_refuted : forall c st,
   exists frame, fd_dispatch_old c st frame = Some (false, st, out0 kRunt).
 Proof. exact dispatch_stops_old_refuted. Qed.
 Print Assumptions C07_dispatch_stops_old_refuted.
+
+Theorem C07_fd_views_carry_the_frame : forall frame, zlength frame <= 65664 ->
+  vbytes (vv_trimFront (split_views BufConfig frame) 14) = skipn 14 frame.
+Proof. exact fd_views_carry_the_frame. Qed.
+Print Assumptions C07_fd_views_carry_the_frame.
